@@ -1,1 +1,169 @@
-From RxVerif Require Import Base.Prelude Ops.Machine Ops.Multi Ops.Timed.
+(* C17 -- time-window operators respect their window boundaries.
+
+   Machines: Ops/Timed.v (written from reactivex/operators/_takewithtime.py,
+   _skipwithtime.py, _takeuntilwithtime.py, _skipuntilwithtime.py,
+   _takelastwithtime.py, _skiplastwithtime.py, _timeout.py,
+   _timeoutwithmapper.py -- the working tree, i.e. with
+   proposed_fixes/C17-take-last-with-time-boundary.diff), tied to the
+   implementation by the K2 correspondence (harness/props/C17.py).  Closed
+   world, notation and conventions: see Props/C15.v.  [due_at ts t0] = t0 +
+   max(0, delay) is the instant the timer scheduled at subscription fires;
+   at that very instant a notification of the source goes first -- this is
+   where the model pins down what the property statement leaves open. *)
+From RxVerif Require Import Base.Prelude Ops.Machine Ops.Multi Ops.MultiFacts Ops.Timed Ops.TimedSim
+  Ops.TimedFacts Ops.TimedWindowFacts Ops.TimedMapperFacts.
+
+(* take_with_time / take_until_with_time: for ANY notification sequence, the
+   notifications up to and at the boundary pass, then completion at the boundary
+   (unless the source terminated by then) *)
+Theorem C17_take_until_with_time_spec : forall A ts t0 (es : list (Z * ev A)),
+  timed_emits t0 (simulate (x_take_until_with_time ts t0) t0 (ext_of es)) = take_spec (due_at ts t0) es.
+Proof. exact @take_until_with_time_spec. Qed.
+Print Assumptions C17_take_until_with_time_spec.
+
+Theorem C17_take_with_time_spec : forall A d t0 (es : list (Z * ev A)),
+  timed_emits t0 (simulate (x_take_until_with_time (Rel d) t0) t0 (ext_of es)) = take_spec (t0 + clamp d) es.
+Proof. exact @take_with_time_spec. Qed.
+Print Assumptions C17_take_with_time_spec.
+
+Theorem C17_take_closed_form : forall A D (es : list (Z * ev A)), tsorted es ->
+  take_spec D es =
+  let k := filter (fun te => fst te <=? D) es in
+  upto_term k ++ (if has_term k then [] else [(D, Done)]).
+Proof. exact @take_spec_sorted. Qed.
+Print Assumptions C17_take_closed_form.
+
+(* skip_with_time (timer scheduled first) / skip_until_with_time (source
+   subscribed first): exactly the elements strictly after the boundary pass; the
+   terminal passes in any case *)
+Theorem C17_skip_until_with_time_spec : forall A timer_first ts t0 (es : list (Z * ev A)), tsorted es ->
+  timed_emits t0 (simulate (x_skip_until_with_time timer_first ts t0) t0 (ext_of es))
+  = upto_term (filter (fun te => is_terminal (snd te) || (due_at ts t0 <? fst te)) es).
+Proof. exact @skip_until_with_time_closed. Qed.
+Print Assumptions C17_skip_until_with_time_spec.
+
+(* take_last_with_time(d): at completion time T exactly the elements with
+   T - t < d, in order, all at T -- a rule on (t, T, d) only *)
+Theorem C17_take_last_with_time_spec : forall A t0 d (tl : list (Z * A)) tm,
+  (forall T, tm = TTDone T -> Forall (fun tx => fst tx <= T) tl) ->
+  timed_emits t0 (simulate (x_take_last_with_time d) t0 (ext_of (tevents tl tm)))
+  = match tm with
+    | TTDone T => at_time T (filter (fun tx => T - fst tx <? d) tl) ++ [(T, Done)]
+    | TTErr t e => [(t, Err e)]
+    | TTNever => []
+    end.
+Proof. exact @take_last_with_time_spec. Qed.
+Print Assumptions C17_take_last_with_time_spec.
+
+Theorem C17_take_last_with_time_boundary_independent : forall A t0 d (tl : list (Z * A)) T x,
+  Forall (fun tx => fst tx <= T) tl ->
+  (In (T, Next x) (timed_emits t0 (simulate (x_take_last_with_time d) t0 (ext_of (tevents tl (TTDone T)))))
+   <-> exists t, In (t, x) tl /\ T - t < d).
+Proof. exact @take_last_with_time_boundary_independent. Qed.
+Print Assumptions C17_take_last_with_time_boundary_independent.
+
+(* the code before the fix (`<=` at completion, `>=` when trimming): the fate of
+   the element aged exactly d at completion depends on an unrelated arrival *)
+Theorem C17_take_last_with_time_orig_boundary_refuted :
+  In (10, Next 1) (timed_emits 0 (simulate (x_take_last_with_time_orig 10) 0
+                                   (ext_of (tevents [(0, 1)] (TTDone 10)))))
+  /\ ~ In (10, Next 1) (timed_emits 0 (simulate (x_take_last_with_time_orig 10) 0
+                                        (ext_of (tevents [(0, 1); (10, 2)] (TTDone 10))))).
+Proof. exact take_last_with_time_orig_boundary_refuted. Qed.
+Print Assumptions C17_take_last_with_time_orig_boundary_refuted.
+
+(* skip_last_with_time(d), time-sorted source completing at T: by the completion
+   exactly the elements with T - t >= d have been emitted, in order -- again a
+   rule on (t, T, d) only.  (Each is emitted at the first notification at which
+   its age reached d; the instants are not part of this statement.) *)
+Theorem C17_skip_last_with_time_spec : forall A t0 d (tl : list (Z * A)) T,
+  tsorted tl -> Forall (fun tx => fst tx <= T) tl ->
+  map snd (timed_emits t0 (simulate (x_skip_last_with_time d) t0 (ext_of (tevents tl (TTDone T)))))
+  = map (fun tx => Next (snd tx)) (filter (fun tx => d <=? T - fst tx) tl) ++ [Done].
+Proof. exact @skip_last_with_time_spec. Qed.
+Print Assumptions C17_skip_last_with_time_spec.
+
+(* timeout(due): [timeout_spec] walks ANY notification sequence with the instant
+   at which the running timer fires: an element up to and at that instant is
+   forwarded and re-arms it, a terminal up to and at it ends the sequence (the
+   timer never acts after the source terminated), otherwise the switch happens
+   exactly at that instant.  Without a fallback: on_error(Timeout) there. *)
+Theorem C17_timeout_no_fallback_spec : forall A ts t0 (es : list (Z * ev A)),
+  timed_emits t0 (simulate (x_timeout ts false t0) t0 (ext_of es))
+  = fst (timeout_spec ts (due_at ts t0) es)
+    ++ match snd (timeout_spec ts (due_at ts t0) es) with Some due => [(due, Err TIMEOUT_ERR)] | None => [] end.
+Proof. exact @timeout_spec_no_fallback. Qed.
+Print Assumptions C17_timeout_no_fallback_spec.
+
+(* with a fallback (source 1): it is subscribed exactly at the switch instant and never otherwise *)
+Theorem C17_timeout_fallback_spec : forall A ts t0 (es : list (Z * ev A)),
+  sim_emits (snd (simulate (x_timeout ts true t0) t0 (ext_of es))) = fst (timeout_spec ts (due_at ts t0) es)
+  /\ sim_subs (snd (simulate (x_timeout ts true t0) t0 (ext_of es)))
+     = match snd (timeout_spec ts (due_at ts t0) es) with Some d => [(d, 1%nat)] | None => [] end.
+Proof. exact @timeout_spec_fallback. Qed.
+Print Assumptions C17_timeout_fallback_spec.
+
+(* closed form of the switch instant, relative due time d >= 0, conforming
+   timeline: the first [last + d] (last = subscription or latest element) that is
+   strictly before the next notification; none if the source terminates first *)
+Theorem C17_timeout_switch_instant : forall A d (tl : list (Z * A)) tm last, 0 <= d ->
+  snd (timeout_spec (Rel d) (last + d) (tevents tl tm)) = first_gap d last tl tm.
+Proof. exact @timeout_spec_switch. Qed.
+Print Assumptions C17_timeout_switch_instant.
+
+(* timeout_with_mapper, step level (the instants at which the timeout observables
+   notify are inputs).  PARTIAL: no closed form over absolute time; whole-run
+   behaviour is covered by the K2 correspondence. *)
+Theorem C17_timeout_with_mapper_step_partial : forall A hf ho (mapper : option (A -> nat -> res unit)) (s : twm_st) now,
+  let m := x_timeout_with_mapper hf ho mapper in
+  (forall k e, k <> 0%nat -> k <> 2%nat -> lookup k (tw_timers s) = Some (tw_id s) -> not_err e ->
+     emitted_cmds (snd (fst (x_step m s now (ISrc k e)))) = []
+     /\ (ho = true -> In (CSub 2%nat) (snd (fst (x_step m s now (ISrc k e))))
+                      /\ In (CUnsub 0%nat) (snd (fst (x_step m s now (ISrc k e))))
+                      /\ snd (x_step m s now (ISrc k e)) = Cont)
+     /\ (ho = false -> e = Done -> snd (x_step m s now (ISrc k e)) = Fail TIMEOUT_ERR))
+  /\ (forall k e my, k <> 0%nat -> k <> 2%nat -> lookup k (tw_timers s) = Some my -> my <> tw_id s ->
+        emitted_cmds (snd (fst (x_step m s now (ISrc k e)))) = []
+        /\ ~ In (CSub 2%nat) (snd (fst (x_step m s now (ISrc k e))))
+        /\ snd (x_step m s now (ISrc k e)) = Cont)
+  /\ (forall e, tw_id (fst (fst (x_step m s now (ISrc 0%nat e)))) = S (tw_id s))
+  /\ (forall x, exists rest, snd (fst (x_step m s now (ISrc 0%nat (Next x)))) = CEmit x :: rest)
+  /\ (snd (x_step m s now (ISrc 0%nat Done)) = Complete)
+  /\ (forall c, snd (x_step m s now (ISrc 0%nat (Err c))) = Fail c).
+Proof. exact @timeout_with_mapper_step_partial. Qed.
+Print Assumptions C17_timeout_with_mapper_step_partial.
+
+(* ---- non-vacuity / worked instances ----------------------------------------- *)
+Example C17_ex_sorted : tsorted (tevents [(0, 1); (10, 0); (10, 2); (15, 3)] (TTDone 30)).
+Proof. cbn. repeat split; repeat constructor; cbn; lia. Qed.
+
+Example C17_ex_take_with_time :
+  timed_emits 0 (simulate (x_take_until_with_time (Rel 10) 0) 0 (ext_of (tevents [(0, 1); (10, 0); (10, 2); (15, 3)] (TTDone 30))))
+  = [(0, Next 1); (10, Next 0); (10, Next 2); (10, Done)].
+Proof. vm_compute. reflexivity. Qed.
+
+Example C17_ex_skip_with_time :
+  timed_emits 0 (simulate (x_skip_until_with_time true (Rel 10) 0) 0 (ext_of (tevents [(0, 1); (10, 0); (10, 2); (15, 3)] (TTDone 30))))
+  = [(15, Next 3); (30, Done)].
+Proof. vm_compute. reflexivity. Qed.
+
+Example C17_ex_take_last_with_time :
+  timed_emits 0 (simulate (x_take_last_with_time 10) 0 (ext_of (tevents [(0, 1); (10, 0); (15, 3)] (TTDone 20))))
+  = [(20, Next 3); (20, Done)].
+Proof. vm_compute. reflexivity. Qed.
+
+Example C17_ex_skip_last_with_time :
+  timed_emits 0 (simulate (x_skip_last_with_time 10) 0 (ext_of (tevents [(0, 1); (10, 0); (15, 3)] (TTDone 20))))
+  = [(10, Next 1); (20, Next 0); (20, Done)].
+Proof. vm_compute. reflexivity. Qed.
+
+(* an element exactly at the due instant re-arms the timer; the gap after it is too long *)
+Example C17_ex_timeout :
+  timed_emits 0 (simulate (x_timeout (Rel 10) false 0) 0 (ext_of (tevents [(10, 1); (15, 0)] (TTDone 40))))
+  = [(10, Next 1); (15, Next 0); (25, Err TIMEOUT_ERR)].
+Proof. vm_compute. reflexivity. Qed.
+
+Example C17_ex_timeout_never_after_terminal :
+  timed_emits 0 (simulate (x_timeout (Rel 10) false 0) 0 (ext_of (tevents [(5, 1)] (TTDone 15))))
+  = [(5, Next 1); (15, Done)].
+Proof. vm_compute. reflexivity. Qed.
